@@ -166,7 +166,7 @@ def run(ctx) -> None:
               and any(dotted(t) == f'{v}.state' for t in m.ast.targets)]
         cl = [m for m in g.nodes if in_iter(m) and m.kind == 'stmt' and isinstance(m.ast, ast.Assign)
               and any(dotted(t) == f'{v}.client_id' for t in m.ast.targets)
-              and dotted(m.ast.value) == 'request.client_id']
+              and dotted(flow.resolve_local(fi.node, m.ast.value)) == 'request.client_id']
         wr = [m for m in g.nodes if in_iter(m) and any(
             svc.ds_call(x) in ('update_trial', 'create_trial') and x.args and isinstance(x.args[0], ast.Name)
             and x.args[0].id == v for x in flow.node_calls(m))]
